@@ -37,11 +37,11 @@ def run(tier, seed):
     # the same cover on the FILE ref store, for the operations it implements (RefsGen!FsStep decides which)
     fscen = scen
     if tier != "quick":
-        # (2 million transitions: every other one, rotated by the seed, on the slower file store)
+        # (6 million transitions with the alias-sensitive cover: every sixth one, rotated by the seed, on the slower file store)
         fscen = scen + ".fs"
         with open(scen) as f, open(fscen, "w") as g:
             for i, line in enumerate(f):
-                if i % 2 == seed % 2:
+                if i % 6 == seed % 6:
                     g.write(line)
     fout = vlib.replay(ENGINE, fscen, env={"REFS_STORE": "fs"})
     vlib.absorb_replay(v, fout, ENGINE, fscen, extra={"store": "fs"})
